@@ -150,12 +150,13 @@ Lemma PAs_nil : PAs ANil.
 Proof. intros sc h h' l HS H. cbn in H. inversion H; subst. exists []. cbn. csplit; auto using vstep_refl. Qed.
 Lemma PAs_cons a r : PA a -> PAs r -> PAs (ACons a r).
 Proof.
-  intros IHa IHr sc h h' l HS H. cbn in H.
+  intros IHa IHr sc h h' l HS H. cbn [deser_attrs] in H. cbn [pu_as].
+  destruct (existsb (N.eqb (aproto_name a)) (aproto_names r)) eqn:Edup; [exact (IHr _ _ _ _ HS H)|].
   destruct (deser_attr a sc h) as [[h1 x]|e] eqn:E1; [|discriminate].
   destruct (deser_attrs r sc h1) as [[h2 l2]|e] eqn:E2; [|discriminate]. inversion H; subst; clear H.
   destruct (IHa _ _ _ _ HS E1) as (t & A1 & A2 & A3).
   destruct (IHr _ _ _ _ (SCB_step _ _ _ HS A3) E2) as (ts & B1 & B2 & B3).
-  exists (t :: ts). cbn. rewrite A1. cbn. rewrite B1. cbn. csplit; auto.
+  exists (t :: ts). rewrite A1. cbn. rewrite B1. cbn. csplit; auto.
   - constructor; [eapply RA_step; eauto|]. eapply Forall2_imp; [|exact B2]. intros y u Hy. eapply RA_shift; eauto.
     apply vstep_nv; auto.
   - eapply vstep_trans; eauto.
